@@ -1264,6 +1264,32 @@ def implied(body, d, v, depth=0):
     out = [(d, v)]
     if depth > 6:
         return out
+    if d[0] == 'discr':
+        # discriminant of a merged Option / Result: when only one definition can build the tested variant, its conditions hold
+        x = d[1]
+        while x[0] in ('ref', 'deref'):
+            x = x[1]
+        if x[0] == 'phi':
+            DV = {'Option::None': 0, 'Option::Some': 1, 'Result::Ok': 0, 'Result::Err': 1}
+            b2 = body.facts.bodies.get(x[5], body) if len(x) > 5 and x[5] else body
+            sub = x[6] if len(x) > 6 else None
+            feas = []
+            for br, where in zip(x[2], x[4]):
+                b0 = br
+                while b0[0] in ('ref', 'deref'):
+                    b0 = b0[1]
+                dv = DV.get('::'.join(str(b0[1]).split('::')[-2:])) if b0[0] == 'aggr' else None
+                if dv is not None and ((dv in v[1]) if isinstance(v, tuple) else (dv not in v)):
+                    continue
+                feas.append((br, where))
+            if len(feas) == 1:
+                br, where = feas[0]
+                for (_, d2, v2) in phi_branch_conditions(b2, where):
+                    if sub is not None:
+                        d2 = subst_args(d2, sub)
+                    out += implied(body, *norm_cond(d2, v2), depth=depth + 1)
+                out += implied(body, *norm_cond(('discr', br), v), depth=depth + 1)[1:]
+        return out
     t = _truthy(v)
     if t is None:
         return out
